@@ -51,10 +51,9 @@ void InvariantMixedDiscreteDistribution::updateDistribution()
   distribution_[invariant_] = p_;
   for (size_t i = 0; i < distNCat; i++)
   {
-    if (cats[i] == invariant_)
-      distribution_[invariant_] += (1. - p_) * probs[i];
-    else
-      distribution_[cats[i]] = (1. - p_) * probs[i];
+    // The map merges class values closer than its precision (a class value of the nested
+    // distribution may be that close to the invariant): probabilities are added, never overwritten.
+    distribution_[cats[i]] += (1. - p_) * probs[i];
   }
 
   intMinMax_->setLowerBound(dist_->getLowerBound(), dist_->strictLowerBound());
